@@ -18,6 +18,7 @@ import random
 import hashlib
 
 from dsim.kernel import make_bench, cached_bench, Violations, GenActor
+from models.usb2_wire import gen_idle_data
 from models.usb2 import UTMIHost
 from models.usb2_ctrl import Txn, setup_bytes, is_data
 from engines.usb2_device import IDLE_INIT, UTMI_INS, UTMI_OUTS
@@ -177,6 +178,7 @@ def gen(rng, tier, index):
     n = rng.randint(3, 8 if tier == "quick" else 14) if standalone else rng.randint(3, 6 if tier == "quick" else 10)
     extra = [(3, 0)] if not standalone and not any(e[0] == 3 and e[1] == 0 for e in entries) else []
     ops = _requests(rng, entries, mps, n, standalone, extra)
+    cfg["idle_data"] = gen_idle_data(rng)
     return {"engine": ENGINE, "config": cfg, "ops": ops}
 
 
@@ -577,7 +579,7 @@ def _run_device(scn, viol, probes, faults):
         yield from h.idle(8)
         quiet(h, "at the end of the run")
 
-    host = UTMIHost(script, byte_period=cfg["byte_period"], pre=cfg["pre"], post=cfg["post"],
+    host = UTMIHost(script, idle_data=cfg.get("idle_data"), byte_period=cfg["byte_period"], pre=cfg["pre"], post=cfg["post"],
                     txready=(cfg["txready"] if cfg["txready"] == "always" else tuple(cfg["txready"])))
     bp = cfg["byte_period"]
     max_cycles = 500 + sum(1000 + 60 * bp + (min(op["wlength"], 400) // mps + 3) * (1 + sum(op.get("rereads", [])))
